@@ -465,13 +465,18 @@ class Queue(Greenlet):
         for i, entry in enumerate(self.queued):
             timestamp, entry_id = entry
             if now >= timestamp:
-                self._pool_spawn('store', self._dequeue, entry_id)
                 last_i = i+1
             else:
                 break
         if last_i > 0:
+            # The ready entries leave the timetable before anything is
+            # spawned: spawning on a full pool yields to other greenlets,
+            # which may insert into the timetable meanwhile.
+            ready = self.queued[:last_i]
             self.queued = self.queued[last_i:]
             self.queued_ids = set([id for _, id in self.queued])
+            for _, entry_id in ready:
+                self._pool_spawn('store', self._dequeue, entry_id)
 
     def _wait_store(self):
         while True:
